@@ -177,6 +177,7 @@ Definition cond_holds (c : cx) (d : cond) : bool :=
   | CAuth => auth_on (cx_cfg c)
   | CNotAuth => negb (auth_on (cx_cfg c))
   | COpaque => false
+  | CPerRequest => true
   | CLastLogin => last_login c
   end.
 
@@ -308,6 +309,23 @@ Definition decide_p (p : pgate) (c : cx) : verdict :=
   else eval_steps c (pg_steps p).
 
 Definition decide (g : gate) (c : cx) : verdict := decide_p (prep g) c.
+
+(* ---- streams that serve several requests (gen/Gates.v multi_request_rpcs) *)
+Definition multi_request (g : gate) : bool :=
+  existsb (fun r => String.eqb (fst r) (gt_svc g) && String.eqb (snd r) (gt_rpc g)) multi_request_rpcs.
+Definition is_auth_atom (a : atom) : bool :=
+  match a with ADb _ | ADbDyn | AUser | ASess | ATx | ASessID | ATok | ACheck _ => true | _ => false end.
+Definition in_recv_loop (s : gstep) : bool :=
+  existsb (fun d => match d with CPerRequest => true | _ => false end) (g_when s).
+(* every authentication / permission step of the handler sits inside the receive loop (and there is one) *)
+Definition per_request (g : gate) : bool :=
+  forallb (fun s => negb (is_auth_atom (g_atom s)) || in_recv_loop s) (gt_steps g) &&
+  existsb (fun s => is_auth_atom (g_atom s) && in_recv_loop s) (gt_steps g).
+(* decision for a LATER request on a stream opened in context c_open, the caller's context being
+   c_now at the time of the request: re-decided when the guards are per request, else the decision
+   taken when the stream was opened stands *)
+Definition decide_next (g : gate) (c_open c_now : cx) : verdict :=
+  if per_request g then decide g c_now else decide g c_open.
 
 Definition find_gate (svc rpc : string) : option gate :=
   find (fun g => String.eqb (gt_svc g) svc && String.eqb (gt_rpc g) rpc) gates.
@@ -473,7 +491,7 @@ Definition all_cx : list cx :=
 
 (* a step that applies to every request when authentication is on *)
 Definition cond_static_auth (d : cond) : bool :=
-  match d with CNotMaint | CAuth => true | _ => false end.
+  match d with CNotMaint | CAuth | CPerRequest => true | _ => false end.
 Definition applies_with_auth (s : gstep) : bool := forallb cond_static_auth (g_when s).
 
 Definition is_db_gate_with_entry (s : gstep) : bool :=
